@@ -1,4 +1,4 @@
-CONSTANTS N = 8  NOrig = 5  NLoc = 3  MaxLevel = 99  Typed = FALSE  MaxSet = 3  NBlk = 0  BlkGrid = FALSE  SimDepth = 10
+CONSTANTS N = 8  NOrig = 5  NLoc = 3  MaxLevel = 99  Typed = FALSE  MaxSet = 3  NBlk = 0  BlkGrid = FALSE  NGrp = 0  Rx = FALSE  NAsm = 0  Deviant = FALSE  WithOwned = FALSE  SimDepth = 10
 INIT SimInit
 NEXT SimNext
 INVARIANT Done
